@@ -320,11 +320,10 @@ func (a *App) scripted(sym string, n int, l string, input []byte) (resource.Resu
 	}
 	sr := sp.Results[i]
 	res := resource.Result{
-		Content:   sr.Content,
-		Status:    sr.Status,
-		FlagSet:   append([]uint32(nil), sr.FlagSet...),
-		FlagReset: append([]uint32(nil), sr.FlagReset...),
+		Content: sr.Content,
+		Status:  sr.Status,
 	}
+	res.FlagReset, res.FlagSet = guardedFlagLists(sym, n, sr.FlagReset, sr.FlagSet)
 	if l != "" {
 		if tr := a.TransFor(l); tr != nil {
 			if t, ok := tr.Statics[sym]; ok {
@@ -688,4 +687,59 @@ func CallsString(cs []Call) string {
 		parts = append(parts, c.String())
 	}
 	return strings.Join(parts, " ")
+}
+
+// Flag lists are handed to the library the way an application with one flag table would:
+// as windows into a larger array, with spare capacity behind them. The library may read
+// them; what lies behind and between them is the application's and must stay as it was
+// (FlagGuardsTampered reports any change).
+const flagGuard = 0xfffffff1
+
+type flagGuardEntry struct {
+	backing, want []uint32
+	what          string
+}
+
+var flagGuardMu sync.Mutex
+var flagGuardList []flagGuardEntry
+
+func guardedFlagLists(sym string, n int, reset, set []uint32) (r, s []uint32) {
+	if len(reset) == 0 && len(set) == 0 {
+		return nil, nil
+	}
+	backing := make([]uint32, 0, len(reset)+len(set)+6)
+	backing = append(backing, reset...)
+	backing = append(backing, flagGuard, flagGuard, flagGuard)
+	backing = append(backing, set...)
+	backing = append(backing, flagGuard, flagGuard, flagGuard)
+	want := append([]uint32(nil), backing...)
+	flagGuardMu.Lock()
+	if len(flagGuardList) > 4096 {
+		flagGuardList = flagGuardList[2048:]
+	}
+	flagGuardList = append(flagGuardList, flagGuardEntry{backing, want, fmt.Sprintf("call %d of %s (FlagReset %v, FlagSet %v)", n, sym, reset, set)})
+	flagGuardMu.Unlock()
+	if len(reset) > 0 {
+		r = backing[:len(reset)]
+	}
+	if len(set) > 0 {
+		s = backing[len(reset)+3 : len(reset)+3+len(set)]
+	}
+	return r, s
+}
+
+// FlagGuardsTampered verifies and forgets the flag lists handed out so far: "" if the
+// arrays they were windows into are unchanged.
+func FlagGuardsTampered() string {
+	flagGuardMu.Lock()
+	defer flagGuardMu.Unlock()
+	defer func() { flagGuardList = nil }()
+	for _, e := range flagGuardList {
+		for i := range e.want {
+			if e.backing[i] != e.want[i] {
+				return fmt.Sprintf("the library wrote into the application's flag table: the array behind the lists returned by %s was %v and is now %v", e.what, e.want, e.backing)
+			}
+		}
+	}
+	return ""
 }
